@@ -72,6 +72,10 @@ func (r structReflect) Delete(key string) {
 		panic(fmt.Sprintf("key %s may not be deleted on struct %T: field does not exist", key, r.Value.Interface()))
 	}
 	oldVal := fieldEntry.GetFrom(r.Value)
+	if !oldVal.IsValid() {
+		// within a nil inlined struct: nothing to delete
+		return
+	}
 	if oldVal.Kind() != reflect.Ptr && !fieldEntry.isOmitEmpty {
 		panic(fmt.Sprintf("key %s may not be deleted on struct: %T: value is neither a pointer nor an omitempty field", key, r.Value.Interface()))
 	}
